@@ -68,6 +68,9 @@ func (e *Engine) buildVCy(key string, con *Contract, excl map[string]bool, force
 		}
 	}()
 	fn := e.FnByKey[key]
+	if fn == nil && con != nil && con.FnKey != "" {
+		fn = e.FnByKey[con.FnKey]
+	}
 	if fn == nil {
 		res.Err = "no such function " + key
 		return
@@ -122,6 +125,14 @@ func (e *Engine) buildVCy(key string, con *Contract, excl map[string]bool, force
 		args = append(args, v)
 		if sv, ok := x.specVarOf(v, "param"); ok {
 			res.ParamTerms[p.Name()] = sv.T.S
+		}
+	}
+	if x.LockHavoc && len(args) > 0 {
+		if sv, ok := x.specVarOf(args[0], "lock"); ok {
+			x.lockRecv = sv.T
+			cs, mv := x.comp(st, "Cell_stack"), x.comp(st, "Mem_Val")
+			x.lockCfg = c.Def("lock_cfg", T(SInt, app("cfgOf", cs.S, mv.S, sv.T.S)))
+			x.lockMtx = c.Def("lock_mtx", T(SInt, app("select", x.comp(st, "F_nodeConfig_mtx").S, x.lockCfg.S)))
 		}
 	}
 	fr := x.newFrame(fn, con)
